@@ -27,6 +27,8 @@ package refcount
 //@   inv N0[C09]: this.refs != nil && this.resolver != nil
 //@   inv N1[C09]: this.waitCh != nil ==> downer(this.waitCh) == this
 //@   inv N4[C09]: forall k: *Ref {in(this.refs, k)} :: in(this.refs, k) ==> k != nil
+//@   inv N5[C09]: this.ctx != nil && len(this.refs) > 0 && !this.resolved ==> this.resolveCtx != nil
+//@   inv V1[C08]: this.valueRel != nil ==> this.resolved
 //@   inv N2[C09]: this.resolveCtx != nil ==> this.resolveCtxCancel != nil
 //
 //@ object Ref
@@ -59,7 +61,7 @@ package refcount
 //@   props C08 C09 C13
 //@   opt frame = skip
 //@   requires r != nil
-//@   ensures result != nil
+//@   ensures result != nil && result.rc == r
 //
 //@ func (*Ref).Release
 //@   props C08 C09 C13
@@ -74,24 +76,34 @@ package refcount
 //@ closure (*RefCount).shutdown
 //@   props C08 C09
 //
+// clearResolvedState: when the release function of the current value runs, the value has already been taken
+// out of the RefCount and of the target container and every reference callback has been told (C08).
 //@ func (*RefCount).clearResolvedState
 //@   props C08 C09
 //@   opt holds = mtx
 //@   opt frame = skip
 //@   requires r != nil
+//@   opt leaves = N5
+//@   assert callback valueRel: gone: !r.resolved && r.value == zero() && r.valueErr == nil
+//@   ensures cleared: !r.resolved && r.valueRel == nil && r.resolveCtx == nil && r.resolveCtxCancel == nil
+//@   ensures keeprefs: r.refs == old(r.refs) && len(r.refs) == old(len(r.refs)) && r.ctx == old(r.ctx) && r.nonce == old(r.nonce) && r.waitCh == old(r.waitCh)
 //
 //@ func (*RefCount).callRefCbsLocked
 //@   props C08 C09 C13
 //@   opt holds = mtx
 //@   opt frame = skip
+//@   opt leaves = N5 V1
 //@   requires r != nil
 //@   loop 1 invariant mine: forall ch: ref {drun(ch)} :: old(drun(ch)) == me ==> drun(ch) == me && dpred(ch) == old(dpred(ch))
 //@   ensures mine: forall ch: ref {drun(ch)} :: old(drun(ch)) == me ==> drun(ch) == me && dpred(ch) == old(dpred(ch))
+//@   loop 1 invariant same: r.resolved == old(r.resolved) && r.value == old(r.value) && r.valueErr == old(r.valueErr) && r.valueRel == old(r.valueRel) && r.resolveCtx == old(r.resolveCtx) && r.resolveCtxCancel == old(r.resolveCtxCancel) && r.nonce == old(r.nonce) && r.waitCh == old(r.waitCh) && r.ctx == old(r.ctx) && r.refs == old(r.refs) && len(r.refs) == old(len(r.refs))
+//@   ensures same: r.resolved == old(r.resolved) && r.value == old(r.value) && r.valueErr == old(r.valueErr) && r.valueRel == old(r.valueRel) && r.resolveCtx == old(r.resolveCtx) && r.resolveCtxCancel == old(r.resolveCtxCancel) && r.nonce == old(r.nonce) && r.waitCh == old(r.waitCh) && r.ctx == old(r.ctx) && r.refs == old(r.refs) && len(r.refs) == old(len(r.refs))
 //
 //@ func (*RefCount).startResolveLocked
 //@   props C08 C09 C13
 //@   opt holds = mtx
 //@   opt frame = skip
+//@   opt breaks = N5
 //@   requires r != nil
 //@   ghost go 1: downer(doneCh) := r
 //@   ghost go 1: drun(doneCh) := me
@@ -107,3 +119,41 @@ package refcount
 //@   assert select 1: selects(waitCh) && selects(done(ctx))
 //@   assert callback 1: handover: waitCh == nil || closed(waitCh)
 //@   ghost close *: drun(doneCh) := nil
+//
+// The closures handed to the resolver: released() takes the lock (TryLock or a new goroutine) and restarts
+// resolution only if the value it belongs to is still the current one (nonce).
+//@ func (*RefCount).resolve$1
+//@   props C08 C09 C13
+//@   opt frame = skip
+//@   requires r != nil
+//
+//@ func (*RefCount).resolve$1$1
+//@   props C08 C09 C13
+//@   inline
+//@   opt frame = skip
+//@   requires r != nil
+//@   requires lock
+//
+//@ func (*RefCount).AddRefPromise
+//@   props C10
+//@   opt frame = skip
+//@   requires r != nil
+//@   ensures result0 != nil && result1 != nil && result1.rc == r
+//
+//@ func (*RefCount).AddRefPromise$1
+//@   props C10
+//@   opt frame = skip
+//@   requires promCtr != nil
+//
+//@ func (*RefCount).Wait
+//@   props C10
+//@   opt frame = skip
+//@   requires r != nil && ctx != nil
+//@   ensures ref: result2 == nil ==> result1 != nil
+//@   ensures noref: result2 != nil ==> result1 == nil
+//
+//@ func (*RefCount).Resolve
+//@   props C10
+//@   opt frame = skip
+//@   requires r != nil && ctx != nil
+//@   ensures rel: result2 == nil ==> result1 != nil
